@@ -7,6 +7,8 @@ SUBSETS = [["Hash"], ["PartialEq", "Eq", "Hash"], ["PartialEq", "Eq", "PartialOr
 G_UNITS = {"cmp_flags": ["CompareOp::is_effects_to", "HelperAttributesForCompareOp::is_ignore"], "cmp_select": ["build_hash_expr", "ItemSourceKind::self_of"], "cmp_bodies": ["build_hash_body", "build_compare_op"], "kinds": ["HelperAttributeKinds::is_match_cmp_attr", "HelperAttributesForCompareOp::from_attrs"]}
 
 
+G_UNITS["implitem"] = ["is_root_derive_ex_attr"]      # which sibling attributes belong to the request (split lists)
+
 def programs(ctx):
     rng = random.Random(ctx.seed + 6)
     n = 70 if ctx.quick else 900
